@@ -73,7 +73,7 @@ def build_doc(toks, rng):
             arr[int(t)] = node
             node = arr
         else:
-            node = {t: node, "zz": 0}
+            node = {"zz" if t != "zz" else "yy": 0, t: node}  # the filler member must not collide with the token
     return node, leaf
 
 
